@@ -63,7 +63,7 @@ def c18_config(ctx, subset):
 
 def _cfg_global(tier):
     n = 3 if tier == 'quick' else 5
-    ops = ['set', 'reset', 'create', 'set_bad']
+    ops = ['set', 'reset', 'create', 'set_bad']        # 'create' alternates between Calculator() and Calculator(settings without a step)
     seqs = [list(s) for s in itertools.product(range(4), repeat=n)]
     if tier == 'quick':
         seqs = seqs[::1]
@@ -101,7 +101,7 @@ def c18_global_step(ctx, seq, unit):
                     tcpkg.reset_globals()
                     current = 0.5
                 else:
-                    c = p.Calculator()
+                    c = p.Calculator() if i % 2 else p.Calculator(_config={'cMaxIterations': 10, 'cMinimumVelocity': 40.0})
                     created.append((c, current))
                     ctx.check_eq('creation_time_value', c._calc._config.max_calc_step_size_feet, current, rel=1e-12)
             for c, want in created:
